@@ -24,15 +24,17 @@ from vlib import cfg
 
 MANIFEST = dict(
     technique='TLA+ specifications of the HTTP exchange (grammar + parser model + route dispatch) and of RFC 6455 framing over two FIFO channels, checked exhaustively by TLC on small closed models; P-specs TraceHttp/TraceWs validate traces of the bundled client and server (and of an independent raw RFC 6455 client) running over the real stack',
-    text='TLC checks on a small alphabet that the stated wire grammar round-trips through a model of the bundled parser for every header order, and that the frame decoder inverts both the repo-shaped and an independent masked encoder with minimal length forms on all interleavings of two directions (length classes 0,1,125,126,127,65535,65536). The real code is then driven with requests generated from TLC simulations of the exchange model and from the seed (GET/HEAD/POST/PUT, 3 registered + unregistered/near-miss paths, 0-4 extra headers incl. overriding defaults and names/values containing the separator characters, bodies 0..1100 bytes incl. binary and CRLF/": " sequences, handler statuses 200/201/404/500) and with WebSocket message sequences in both directions (lengths 0,1,124..127,65534..65537,200000,300000 and random, masked with all-zero/all-ones/random keys by the harness\'s own client, frames dribbled in pieces); TLC decides for every exchange that the handler of exactly the requested path saw the same method/path/header map/body, that no handler runs for an unregistered path, that the client got the handler\'s status and body, that the accept key equals RFC 6455\'s function (Go standard library) of the client key, that per direction the received messages are a prefix of the sent ones and at the end all of them, byte-identical, and that raw frame headers announce the actual length in the minimal form.',
+    text='TLC checks on a small alphabet that the stated wire grammar round-trips through a model of the bundled parser for every header order, and that the frame decoder inverts both the repo-shaped and an independent masked encoder with minimal length forms on all interleavings of two directions (length classes 0,1,125,126,127,65535,65536). The real code is then driven with requests generated from TLC simulations of the exchange model and from the seed (GET/HEAD/POST/PUT, 3 registered + unregistered/near-miss paths, 0-4 extra headers incl. overriding defaults and names/values containing the separator characters, bodies 0..1100 bytes incl. binary and CRLF/": " sequences, handler statuses 200/201/404/500) and with WebSocket message sequences in both directions (lengths 0,1,124..127,65534..65537,200000,300000 and random, masked with all-zero/all-ones/random keys by the harness\'s own client, frames dribbled in pieces); all scenarios of a run are served by ONE server process, including the same request shapes repeated (body/headers then bare, unregistered then registered path), raw upgrades repeating the same Sec-WebSocket-Key, and combos of simultaneously open connections (later upgrades and plain requests while earlier WebSocket connections are open, their messages flowing afterwards); TLC decides for every exchange that the handler of exactly the requested path saw the same method/path/header map/body, that no handler runs for an unregistered path, that the client got the handler\'s status and body, that the accept key equals RFC 6455\'s function (Go standard library) of the client key, that per direction the received messages are a prefix of the sent ones and at the end all of them, byte-identical, and that raw frame headers announce the actual length in the minimal form.',
     design='5 C20',
-    note='Limits: an HTTP message is taken with one receive and Write ignores short writes, so HTTP messages stay within one segment (< 4 KiB here) and the bytes written per direction of a WebSocket connection stay below the 1 MiB send buffer; empty header values, unknown status codes and an empty handler body (End("") means "use the default page") are outside the grammar. The bundled server registers its read waiter after Accept (a request arriving before that is never noticed, a schedule race outside C20): the driver writes only after the server goroutine of the connection is parked in ServerSocket.Read (seen in the goroutine dump, state-based) plus settle_ms, and every rejected scenario is re-run once before it is reported. websocket/client.go needs cgo (`import "C"`): appd is built with CGO_ENABLED=1, falling back to a replica of its few lines without cgo. Request token/header map without accessor are read by reflection. Known finding F11 (Response.Error is a no-op) is tolerated only via the KF constant when registered as known.')
+    note='Limits: an HTTP message is taken with one receive and Write ignores short writes, so HTTP messages stay within one segment (< 4 KiB here) and the bytes written per direction of a WebSocket connection stay below the 1 MiB send buffer; empty header values, unknown status codes and an empty handler body (End("") means "use the default page") are outside the grammar. The bundled server registers its read waiter after Accept (a request arriving before that is never noticed, a schedule race outside C20): the driver writes only after the server goroutine of the connection is parked in ServerSocket.Read (seen in the goroutine dump, state-based) plus settle_ms, and every rejected scenario is re-run before it is reported: alone in a fresh process, then after one earlier scenario of its class, then after the whole recorded history of the server process (state leaking between exchanges reproduces only with its history; the replay file carries that history). websocket/client.go needs cgo (`import "C"`): appd is built with CGO_ENABLED=1, falling back to a replica of its few lines without cgo. Request token/header map without accessor are read by reflection. Known finding F11 (Response.Error is a no-op) is tolerated only via the KF constant when registered as known.')
 
 SPEC = ['app']
 ROUTES = ['/a', '/b', '/b/c.d_e-1?q=1&r=%20']
-WS_ROUTE = '/ws'
+WS_ROUTES = ['/ws', '/ws2', '/ws3']
+WS_ROUTE = WS_ROUTES[0]
+SAMPLE_KEY = 'dGhlIHNhbXBsZSBub25jZQ=='     # RFC 6455's sample nonce, sent by several raw connections of one server process
 UNREG = ['/nope', '/a/', '/A', '/c', '/b/', '/b/c', '/a?x', '/ws/', '/b/c.d_e-1', '/b/c.d_e-1?q=1&r=%21']
-ALL_ROUTES = ROUTES + [WS_ROUTE]
+ALL_ROUTES = ROUTES + WS_ROUTES
 STATUSES = [200, 201, 404, 500]
 WS_LENS = [0, 1, 124, 125, 126, 127, 65534, 65535, 65536, 65537, 200000, 300000]
 DIR_BUDGET = 900000      # bytes per direction per connection (send buffer: 1 MiB, Write ignores short writes)
@@ -178,7 +180,7 @@ def key_of(rng, i):
     return [[0, 0, 0, 0], [255, 255, 255, 255], [rng.randrange(256) for _ in range(4)]][i % 3]
 
 
-def ws_scenario(rng, sid, raw, c_lens, s_lens, order=None, chunks=None):
+def ws_scenario(rng, sid, raw, c_lens, s_lens, order=None, chunks=None, route=None, ckey=None):
     def trim(ls):
         out, tot = [], 0
         for n in ls:
@@ -188,7 +190,9 @@ def ws_scenario(rng, sid, raw, c_lens, s_lens, order=None, chunks=None):
             tot += n + 14
         return out
     c_lens, s_lens = trim(c_lens), trim(s_lens)
-    sc = dict(kind='wsraw' if raw else 'ws', id=sid, path=WS_ROUTE,
+    if ckey is None:
+        ckey = SAMPLE_KEY if raw and rng.random() < 0.4 else ''
+    sc = dict(kind='wsraw' if raw else 'ws', id=sid, path=route or WS_ROUTE, ckey=ckey if raw else '',
               c2s=[dict(n=n, seed=rng.randrange(1 << 30), key=key_of(rng, rng.randrange(3)) if raw else []) for n in c_lens],
               s2c=[dict(n=n, seed=rng.randrange(1 << 30), key=[]) for n in s_lens], order=[], chunks=[])
     if order is None and rng.random() < 0.6:
@@ -216,22 +220,75 @@ def ws_scenario(rng, sid, raw, c_lens, s_lens, order=None, chunks=None):
     return sc
 
 
+def leaves(scs):
+    """the single-connection scenarios (a combo contributes its parts)"""
+    out = []
+    for s in scs:
+        out.extend(s['parts'] if s['kind'] == 'combo' else [s])
+    return out
+
+
+def combo_scenario(rng, nid):
+    """Several connections of ONE server process open at the same time: upgrades (same key repeated / different keys),
+    plain requests and messages on earlier connections interleave."""
+    parts = []
+    wsr = list(WS_ROUTES)
+    rng.shuffle(wsr)
+    kinds = ['ws', 'wsraw', 'http', 'http']
+    kinds += [rng.choice(['ws', 'wsraw', 'http', 'http'])] if rng.random() < 0.6 else []
+    rng.shuffle(kinds)
+    if kinds[0] == 'http':      # a websocket connection first, so that everything else happens while it is open
+        i = next(i for i, k in enumerate(kinds) if k != 'http')
+        kinds[0], kinds[i] = kinds[i], kinds[0]
+    hroutes = ['r0', 'r1', 'r2', 'nr', 'nr']
+    rng.shuffle(hroutes)
+
+    def ln():
+        return rng.choice([0, 1, 125, 126, 127, 300, 65535, 65536, 70000]) if rng.random() < 0.7 else rng.randrange(0, 2000)
+    for k in kinds:
+        if k == 'http':
+            parts.append(http_scenario(rng, nid(), rng.choice(['GET', 'HEAD', 'POST', 'PUT']), hroutes.pop(), rng.randrange(5),
+                                       rng.choice(['b0', 'b1', 'bmid', 'b1k']), 200 if rng.random() < 0.8 else rng.choice(STATUSES[1:]),
+                                       rng.choice(['r1', 'rmid', 'r1k'])))
+        else:
+            raw = k == 'wsraw'
+            parts.append(ws_scenario(rng, nid(), raw, [ln() for _ in range(rng.randrange(1, 4))], [ln() for _ in range(rng.randrange(1, 4))],
+                                     route=wsr.pop(), ckey=SAMPLE_KEY if raw and rng.random() < 0.7 else ''))
+    return dict(kind='combo', id=nid(), parts=parts)
+
+
 def gen_scenarios(ctx, sims_http, sims_ws):
     rng = ctx.rng
     scs = []
+    counter = [0]
+
+    def nid():
+        counter[0] += 1
+        return counter[0] - 1
     # F11 probe first (fixed shape: the handler answers 404)
-    scs.append(dict(kind='http', id=0, method='GET', path=ROUTES[0], headers=[['X-Probe', 'f11']], body='', status=404, rbody=hx(b'not here')))
+    scs.append(dict(kind='http', id=nid(), method='GET', path=ROUTES[0], headers=[['X-Probe', 'f11']], body='', status=404, rbody=hx(b'not here')))
+    # state that must not leak between exchanges of one server process: a request with body and headers, then the same
+    # path bare; an unregistered path, then a registered one; the same again after a 404-producing handler
+    big = http_scenario(rng, nid(), 'POST', 'r1', 4, 'b1k', 200, 'r1k')
+    scs.append(big)
+    scs.append(dict(kind='http', id=nid(), method='GET', path=big['path'], headers=[], body='', status=200, rbody=hx(b'bare')))
+    scs.append(http_scenario(rng, nid(), 'GET', 'nr', 2, 'bmid', 200, 'r1'))
+    scs.append(dict(kind='http', id=nid(), method='HEAD', path=ROUTES[0], headers=[['X-After', 'unregistered']], body='', status=200, rbody=hx(b'a again')))
     n_http = ctx.pick(40, 1500)
     for (m, p, nh, b, st, rb) in sims_http:
         if len(scs) > n_http:
             break
-        scs.append(http_scenario(rng, len(scs), m, p, nh, b, st, rb))
+        scs.append(http_scenario(rng, nid(), m, p, nh, b, st, rb))
     while len(scs) <= n_http:
-        scs.append(http_scenario(rng, len(scs), rng.choice(['GET', 'HEAD', 'POST', 'PUT']),
+        scs.append(http_scenario(rng, nid(), rng.choice(['GET', 'HEAD', 'POST', 'PUT']),
                                  rng.choice(['r0', 'r1', 'r2', 'nr']), rng.randrange(5),
                                  rng.choice(['b0', 'b1', 'bmid', 'b1k']),
                                  200 if rng.random() < 0.75 else rng.choice(STATUSES[1:]),
                                  rng.choice(['r1', 'rmid', 'r1k'])))
+    # two raw upgrades with the SAME key right after each other, then one with another key
+    scs.append(ws_scenario(rng, nid(), True, [1], [1], ckey=SAMPLE_KEY))
+    scs.append(ws_scenario(rng, nid(), True, [2], [], ckey=SAMPLE_KEY))
+    scs.append(ws_scenario(rng, nid(), True, [], [3], ckey=''))
     # WebSocket: every boundary length once per direction through the bundled client and once through the raw client
     for raw in (False, True):
         ls = list(WS_LENS)
@@ -239,7 +296,9 @@ def gen_scenarios(ctx, sims_http, sims_ws):
         ls2 = list(WS_LENS)
         rng.shuffle(ls2)
         for i in range(0, len(ls), 3):
-            scs.append(ws_scenario(rng, len(scs), raw, ls[i:i + 3], ls2[i:i + 3]))
+            scs.append(ws_scenario(rng, nid(), raw, ls[i:i + 3], ls2[i:i + 3]))
+    for _ in range(ctx.pick(3, 60)):
+        scs.append(combo_scenario(rng, nid))
     for order in sims_ws:
         raw = rng.random() < 0.5
         c = [jitter(rng, n) for s, n in order if s == 'c']
@@ -252,7 +311,7 @@ def gen_scenarios(ctx, sims_http, sims_ws):
             else:
                 tags.append('s%d' % si)
                 si += 1
-        sc = ws_scenario(rng, len(scs), raw, c, s, order=tags)
+        sc = ws_scenario(rng, nid(), raw, c, s, order=tags)
         if len(sc['c2s']) == len(c) and len(sc['s2c']) == len(s):
             scs.append(sc)
     for _ in range(ctx.pick(2, 220)):
@@ -268,20 +327,23 @@ def gen_scenarios(ctx, sims_http, sims_ws):
             if r < 0.95:
                 return rng.randrange(65000, 66500)
             return rng.randrange(0, 300000)
-        scs.append(ws_scenario(rng, len(scs), raw, [ln() for _ in range(rng.randrange(k + 1))], [ln() for _ in range(rng.randrange(k + 1))]))
+        scs.append(ws_scenario(rng, nid(), raw, [ln() for _ in range(rng.randrange(k + 1))], [ln() for _ in range(rng.randrange(k + 1))]))
+    # a plain request after all that websocket traffic
+    scs.append(http_scenario(rng, nid(), 'PUT', 'r2', 1, 'b1', 200, 'rmid'))
     return scs
 
 
 # --------------------------------------------------------------------------- driver
 def drive(ctx, drv, scs, tag, deadline_ms):
-    inp = dict(routes=ROUTES, ws_route=WS_ROUTE, settle_ms=int(os.environ.get('VERIF_C20_SETTLE_MS', '2')),
+    inp = dict(routes=ROUTES, ws_routes=WS_ROUTES, settle_ms=int(os.environ.get('VERIF_C20_SETTLE_MS', '2')),
                deadline_ms=deadline_ms, max_stuck=2, scenarios=scs)
     ip = os.path.join(ctx.work, 'in-%s.json' % tag)
     hp = os.path.join(ctx.work, 'http-%s.ndjson' % tag)
     wp = os.path.join(ctx.work, 'ws-%s.ndjson' % tag)
     vlib.write_json(ip, inp)
-    nbig = sum(1 for s in scs if s['kind'] != 'http')
-    p = ctx.run([drv, 'run', ip, hp, wp], timeout=120 + len(scs) * 2 + (deadline_ms // 1000) * 6 + nbig * 5)
+    lv = leaves(scs)
+    nbig = sum(1 for s in lv if s['kind'] != 'http')
+    p = ctx.run([drv, 'run', ip, hp, wp], timeout=120 + len(lv) * 2 + (deadline_ms // 1000) * 6 + nbig * 5)
     try:
         summ = json.loads(p.stdout.decode().strip().split('\n')[-1])
     except Exception:
@@ -374,27 +436,34 @@ def run(ctx):
     if not sims_http or not sims_ws:
         raise vlib.Inconclusive('TLC -simulate produced no behaviours')
     scs = gen_scenarios(ctx, sims_http, sims_ws)
-    byid = {s['id']: s for s in scs}
+    lv = leaves(scs)
+    byid = {}
+    for ti, top in enumerate(scs):
+        for leaf in (top['parts'] if top['kind'] == 'combo' else [top]):
+            byid[leaf['id']] = (leaf, ti)
     summ, hsegs, wsegs = drive(ctx, drv, scs, 'main', deadline_ms)
-    ctx.extra.update(scenarios=len(scs), http_scenarios=sum(1 for s in scs if s['kind'] == 'http'),
-                     ws_scenarios=sum(1 for s in scs if s['kind'] != 'http'),
+    ctx.extra.update(scenarios=len(lv), http_scenarios=sum(1 for s in lv if s['kind'] == 'http'),
+                     ws_scenarios=sum(1 for s in lv if s['kind'] != 'http'),
+                     combos_of_simultaneous_connections=sum(1 for s in scs if s['kind'] == 'combo'),
+                     ws_upgrades_in_one_server_process=sum(1 for s in wsegs for e in s if e['ev'] == 'upg'),
                      http_from_tlc_simulation=min(len(sims_http), ctx.pick(40, 1500)), ws_orders_from_tlc_simulation=len(sims_ws),
                      ws_client=summ.get('ws_client'), build=flavour, driver_stuck=summ.get('stuck'), driver_skipped=summ.get('skipped'),
                      ws_messages=sum(1 for s in wsegs for e in s if e['ev'] == 'recv'),
                      ws_raw_frames_checked=sum(1 for s in wsegs for e in s if e['ev'] == 'frame'),
                      ws_bytes=sum(e['m']['n'] for s in wsegs for e in s if e['ev'] == 'recv'),
                      handler_invocations=sum(1 for s in hsegs for e in s if e['ev'] == 'hreq'))
-    if len(hsegs) + len(wsegs) + len(summ.get('skipped', [])) != len(scs):
+    if len(hsegs) + len(wsegs) + len(summ.get('skipped', [])) != len(lv):
         raise vlib.Inconclusive('driver produced %d+%d segments (+%d skipped) for %d scenarios' % (
-            len(hsegs), len(wsegs), len(summ.get('skipped', [])), len(scs)))
+            len(hsegs), len(wsegs), len(summ.get('skipped', [])), len(lv)))
     if not any(e['ev'] == 'hreq' for s in hsegs for e in s) and not any(e['ev'] == 'recv' for s in wsegs for e in s):
         raise vlib.Inconclusive('dead driver: no handler invocation / no websocket message observed')
 
     # ---- E3: trace validation (HTTP and WebSocket in parallel, with the F11 probe validated strictly on its own)
     kf = ['F11'] if ctx.known('F11') else []
     probe = hsegs[0]
-    f_h = pool.submit(vlib.validate_segments, ctx, 'TraceHttp', http_trace_cfg(kf), SPEC, hsegs, name='http', count=False)
-    f_w = pool.submit(vlib.validate_segments, ctx, 'TraceWs', ws_trace_cfg(), SPEC, wsegs, name='ws', count=False)
+    mr = ctx.pick(3, 6)
+    f_h = pool.submit(vlib.validate_segments, ctx, 'TraceHttp', http_trace_cfg(kf), SPEC, hsegs, name='http', count=False, max_reruns=mr)
+    f_w = pool.submit(vlib.validate_segments, ctx, 'TraceWs', ws_trace_cfg(), SPEC, wsegs, name='ws', count=False, max_reruns=mr)
     f_p = pool.submit(validate_one, ctx, 'TraceHttp', http_trace_cfg([]), probe, 'http-f11-probe')
     # ---- binding self-tests, also in parallel
     f_st = pool.submit(selftests, ctx, pool, hsegs, wsegs, kf)
@@ -422,33 +491,62 @@ def run(ctx):
     for s in (hsegs[1:3] + wsegs[:2]):
         ctx.sample(dict(kind='scenario-trace', events=[short(e) for e in s[:7]]))
 
+    def rerun(kind, module, cfgtext, tops, sid, tag):
+        """run `tops` in one fresh server process; verdict for the segment of leaf `sid`"""
+        _s, h2, w2 = drive(ctx, drv, tops, tag, deadline_ms)
+        seg2 = next((g for g in (h2 if kind == 'http' else w2) if g and g[0].get('sid') == sid), None)
+        if seg2 is None:
+            return True, None, None
+        ok2, at2 = validate_one(ctx, module, cfgtext, seg2, '%s-%s' % (kind, tag))
+        return ok2, at2, seg2
+
     def handle(kind, segs, rej, module, cfgtext):
+        reported = 0
         for si, ln in rej:
             seg = segs[si]
             sid = seg[0]['sid']
-            sc = byid[sid]
+            sc, ti = byid[sid]
+            top = scs[ti]
             ev = seg[ln] if ln is not None and ln < len(seg) else {}
             if kind == 'ws' and ev.get('ev') == 'frame' and ev.get('dir') == 'c2s':
                 raise vlib.Inconclusive('the harness\'s own encoder disagrees with Ws!IndepHeader: %s' % ev)
-            # reproduce once (verdict rule): re-run the single scenario
-            summ2, h2, w2 = drive(ctx, drv, [sc], 'retry%d' % sid, deadline_ms)
-            seg2 = (h2 if kind == 'http' else w2)
-            ok2, at2 = (True, None)
-            if seg2:
-                ok2, at2 = validate_one(ctx, module, cfgtext, seg2[0], '%s-retry%d' % (kind, sid))
-            if ok2:
+            if reported >= 2:
+                ctx.extra.setdefault('rejections_not_rerun', []).append(dict(scenario=sid, event=short(ev)))
+                continue
+            # reproduce once (verdict rule). The behaviour may depend on what the server process served before, so:
+            # the scenario alone in a fresh process; then after one earlier scenario of its class; then after the whole
+            # recorded history of the process.
+            same = [t for t in scs[:ti] if (t['kind'] == 'http') == (top['kind'] == 'http')]
+            attempts = [('alone', [top])]
+            if same:
+                attempts.append(('after-one', [same[0], top]))
+            if ti > 0:
+                attempts.append(('history', scs[:ti + 1]))
+            hit = None
+            for label, tops in attempts:
+                ok2, at2, seg2 = rerun(kind, module, cfgtext, tops, sid, 'retry%d-%s' % (sid, label))
+                if not ok2:
+                    hit = (label, tops, at2, seg2)
+                    break
+            if hit is None:
                 ctx.extra.setdefault('unreproduced', []).append(dict(scenario=sid, kind=sc['kind'], event=short(ev),
                                                                      notes=[e.get('what') for e in seg if e['ev'] == 'note'][:4],
                                                                      tail=[short(e) for e in seg[max(0, (ln or 0) - 3):(ln or 0) + 1]]))
                 continue
+            label, tops, at2, seg2 = hit
             key = None
             if kind == 'http' and 'F11' not in kf:
-                okf, _ = validate_one(ctx, module, http_trace_cfg(['F11']), seg2[0], 'http-classify%d' % sid)
+                okf, _ = validate_one(ctx, module, http_trace_cfg(['F11']), seg2, 'http-classify%d' % sid)
                 if okf:
                     key = 'F11'
             what = describe(kind, seg, ln)
-            ctx.violation(what, dict(kind='scenario', scenario=sc, events=[short(e) for e in seg[:ln + 1]],
-                                     rerun_events=[short(e) for e in seg2[0][:(at2 or 0) + 1]]), key=key)
+            if label != 'alone':
+                what += ' [history-dependent: reproduces only after earlier exchanges served by the same server process (%s, %d scenarios before it)]' % (label, len(tops) - 1)
+            ctx.violation(what, dict(kind='history', target=sid, scenarios=tops if len(tops) <= 40 else tops[-40:],
+                                     history_truncated=len(tops) > 40,
+                                     events=[short(e) for e in seg[:(ln or 0) + 1]],
+                                     rerun_events=[short(e) for e in seg2[:(at2 or 0) + 1]]), key=key)
+            reported += 1
 
     handle('http', hsegs, rej_h, 'TraceHttp', http_trace_cfg(kf))
     handle('ws', wsegs, rej_w, 'TraceWs', ws_trace_cfg())
@@ -461,7 +559,7 @@ def run(ctx):
     pool.shutdown()
     ctx.states = sum(r['distinct'] for r in ctx.tlc_runs)
     ctx.transitions = sum(r['generated'] for r in ctx.tlc_runs)
-    ctx.extra['limits'] = dict(http_message_bytes_max=max(len(s['body']) // 2 for s in scs if s['kind'] == 'http') + 1400,
+    ctx.extra['limits'] = dict(http_message_bytes_max=max(len(s['body']) // 2 for s in lv if s['kind'] == 'http') + 1400,
                                ws_bytes_per_direction_max=DIR_BUDGET, settle_ms=int(os.environ.get('VERIF_C20_SETTLE_MS', '2')),
                                deadline_ms=deadline_ms, ws_lengths=WS_LENS)
     ctx.assumptions += [
@@ -573,21 +671,24 @@ def selftests(ctx, pool, hsegs, wsegs, kf):
 
 
 def replay(ctx, rep):
-    """python3 tools/vcheck C20 --replay <file>: run the recorded scenario again and validate its trace."""
-    sc = rep['replay']['scenario']
+    """python3 tools/vcheck C20 --replay <file>: run the recorded scenario(s) again in one server process and validate the target's trace."""
+    r = rep['replay']
+    tops = r['scenarios'] if 'scenarios' in r else [r['scenario']]
+    target = r.get('target', leaves(tops)[-1]['id'])
+    sc = next(s for s in leaves(tops) if s['id'] == target)
     drv, _ = build_appd(ctx)
-    summ, h, w = drive(ctx, drv, [sc], 'replay', int(os.environ.get('VERIF_C20_DEADLINE_MS', '30000')))
+    summ, h, w = drive(ctx, drv, tops, 'replay', int(os.environ.get('VERIF_C20_DEADLINE_MS', '30000')))
     kind = 'http' if sc['kind'] == 'http' else 'ws'
-    segs = h if kind == 'http' else w
-    if not segs:
+    seg = next((g for g in (h if kind == 'http' else w) if g and g[0].get('sid') == target), None)
+    if seg is None:
         raise vlib.Inconclusive('replay produced no trace')
     kf = ['F11'] if ctx.known('F11') else []
     ok, at = validate_one(ctx, 'TraceHttp' if kind == 'http' else 'TraceWs', http_trace_cfg(kf) if kind == 'http' else ws_trace_cfg(),
-                          segs[0], 'replay')
-    ctx.states = sum(r['distinct'] for r in ctx.tlc_runs)
-    ctx.transitions = sum(r['generated'] for r in ctx.tlc_runs)
+                          seg, 'replay')
+    ctx.states = sum(x['distinct'] for x in ctx.tlc_runs)
+    ctx.transitions = sum(x['generated'] for x in ctx.tlc_runs)
     if ok:
         ctx.traces += 1
         print('replay: accepted by the C20 P-spec (does not reproduce)')
         return
-    ctx.violation(describe(kind, segs[0], at), dict(kind='scenario', scenario=sc, events=[short(e) for e in segs[0][:(at or 0) + 1]]))
+    ctx.violation(describe(kind, seg, at), dict(kind='history', target=target, scenarios=tops, events=[short(e) for e in seg[:(at or 0) + 1]]))
